@@ -80,6 +80,11 @@ type appCase struct {
 	FirstChunk int `json:"first_chunk,omitempty"`
 	// process level: the sizes of the writes to the pipe, used in turn (overrides Chunk)
 	ChunkPattern []int `json:"chunk_pattern,omitempty"`
+	// process level: whoever reads the program's standard output stops reading once,
+	// for StdoutPauseMs, after it has read StdoutPauseAfter bytes (the pipe fills up and
+	// the program's write blocks)
+	StdoutPauseMs    int `json:"stdout_reader_pauses_ms,omitempty"`
+	StdoutPauseAfter int `json:"stdout_reader_pauses_after_bytes,omitempty"`
 }
 
 type appObs struct {
@@ -435,12 +440,18 @@ func runAppProcess(c *child.Ctx, bin string, args []string, stdin []byte, k appC
 		if k.StdoutMode == "slow" {
 			buf = make([]byte, 512)
 		}
+		paused := false
 		for {
 			n, err := outR.Read(buf)
 			outMu.Lock()
 			res.Stdout = append(res.Stdout, buf[:n]...)
+			total := len(res.Stdout)
 			outMu.Unlock()
 			tick()
+			if k.StdoutPauseMs > 0 && !paused && total >= k.StdoutPauseAfter {
+				paused = true
+				sleepTicking(time.Duration(k.StdoutPauseMs) * time.Millisecond)
+			}
 			if k.StdoutMode == "slow" && n > 0 {
 				time.Sleep(300 * time.Microsecond)
 			}
@@ -452,7 +463,7 @@ func runAppProcess(c *child.Ctx, bin string, args []string, stdin []byte, k appC
 	}()
 	waitDone := make(chan error, 1)
 	go func() { err := cmd.Wait(); close(exited); waitDone <- err }()
-	patience := 90*time.Second + time.Duration(k.SilenceMs)*time.Millisecond
+	patience := 90*time.Second + time.Duration(k.SilenceMs)*time.Millisecond + time.Duration(k.StdoutPauseMs)*time.Millisecond
 	var err error
 	finished := false
 	select {
